@@ -139,6 +139,7 @@ def inline_expr(u, e, depth=0):
                     arg_paths["arg%d" % (i + 1)] = a2[1]
                 else:
                     arg_paths["arg%d" % (i + 1)] = None
+            arg_paths["#vals"] = {i + 1: a for i, a in enumerate(e[2])}
             return inline_expr(u, _subst(r, arg_paths), depth + 1)
     if e[0] in ("load", "refplace"):
         return e
@@ -154,8 +155,14 @@ def _subst(e, arg_paths):
         return (e[0], "|".join(parts)) + tuple(e[2:])
     if e[0] == "arg":
         k = "arg%d" % e[1]
+        v0 = (arg_paths.get("#vals") or {}).get(e[1])
+        if v0 is not None and v0[0] == "arg":
+            return v0                     # parameter handed through by value
         if arg_paths.get(k):
             return ("refplace", arg_paths[k], "")
+        v = (arg_paths.get("#vals") or {}).get(e[1])
+        if v is not None and v[0] in ("arg", "const", "var", "cast", "bin", "proj", "call"):
+            return v                      # a by-value scalar argument: the caller's expression
         return ("argx", e[1], e[2])
     return tuple(_subst(x, arg_paths) if isinstance(x, tuple) and x and isinstance(x[0], str) else
                  (tuple(_subst(y, arg_paths) for y in x) if isinstance(x, tuple) else x) for x in e)
